@@ -13,6 +13,9 @@
        fix_apps        construct_expression_tree rejects a function application with a wrong number of arguments or
                        a repeated argument (/repo c7c8534, proposed by the C01 builder as D46); Model/NumExpr.v (C12,
                        shared) does not have this check yet, hence the local copy [pconstruct] below
+     cfg_gt true     = cfg_fixed + fix_goal_types: _validate_goal_fluents_arity also type-checks those arguments of a
+                       numeric-goal fluent that are declared objects / constants (proposed_fixes/D19d.diff, NOT yet in
+                       /repo; [cfg_current] says which one the correspondence uses)
    NOT repaired and reproduced here (finding D07): the signature of a grounded PDDLFunction is a dict keyed by
    object name, so repeated arguments collapse: an initial fluent is stored under "(f <distinct arguments>)" and
    printed with the repeated names first; a numeric goal over a fluent with a repeated argument is rejected
@@ -36,9 +39,19 @@ Import ListNotations.
 Open Scope string_scope.
 Open Scope list_scope.
 
-Record pcfg := { fix_untyped : bool; fix_goal_arity : bool; fix_positional : bool; fix_apps : bool }.
-Definition cfg_pinned : pcfg := {| fix_untyped := false; fix_goal_arity := false; fix_positional := false; fix_apps := false |}.
-Definition cfg_fixed : pcfg := {| fix_untyped := true; fix_goal_arity := true; fix_positional := true; fix_apps := true |}.
+Record pcfg := { fix_untyped : bool; fix_goal_arity : bool; fix_positional : bool; fix_apps : bool; fix_goal_types : bool }.
+Definition cfg_pinned : pcfg :=
+  {| fix_untyped := false; fix_goal_arity := false; fix_positional := false; fix_apps := false; fix_goal_types := false |}.
+Definition cfg_fixed : pcfg :=
+  {| fix_untyped := true; fix_goal_arity := true; fix_positional := true; fix_apps := true; fix_goal_types := false |}.
+(* the current tree with ([gt] = true) or without ([gt] = false: [cfg_fixed]) the repair proposed in
+   proposed_fixes/D19d.diff: a fluent of a numeric goal whose argument IS a declared object / constant must have an
+   argument of a conforming type (an undeclared argument is still let through: what is left of finding D19d) *)
+Definition cfg_gt (gt : bool) : pcfg :=
+  {| fix_untyped := true; fix_goal_arity := true; fix_positional := true; fix_apps := true; fix_goal_types := gt |}.
+(* the configuration the correspondence checks (Corr/C05.v, Corr/C09.v) run against: the tree as it is.
+   TO DO when proposed_fixes/D19d.diff is committed to /repo: [cfg_gt true]. *)
+Definition cfg_current : pcfg := cfg_gt false.
 
 (* ---------- object model ---------- *)
 Definition fkey := (string * list string)%type.
@@ -311,8 +324,12 @@ Section Parser.
   Definition goal_ops : list string := [">"; "="; "<"; ">="; "<="].
   Definition funcs_keys : domain_functions := map (fun kv => (fst kv, dkeys (snd kv))) (d_funcs dom).
 
-  (* _validate_goal_fluents_arity (only with fix D19b) *)
-  Fixpoint goal_arity_ok (e : sexp) : bool :=
+  (* the type check of proposed_fixes/D19d.diff: an argument that is declared must conform; others pass *)
+  Definition goal_types_ok (objs : pydict string) (args : list string) (tys : list string) : bool :=
+    forall2b (fun a lt => match dget (possible objs) a with Some t => is_sub_type ptt t lt | None => true end) args tys.
+
+  (* _validate_goal_fluents_arity (only with fix D19b; the type check only with fix_goal_types) *)
+  Fixpoint goal_arity_ok (objs : pydict string) (e : sexp) : bool :=
     match e with
     | Atom _ => true
     | SList l =>
@@ -320,6 +337,7 @@ Section Parser.
         | Some (h :: args) =>
             match dget (d_funcs dom) h with
             | Some sg => Nat.eqb (List.length args) (List.length sg)
+                         && (negb (fix_goal_types cfg) || goal_types_ok objs args (dvalues sg))
             | None => true
             end
         | Some [] => true
@@ -327,7 +345,7 @@ Section Parser.
             (fix go (skip : bool) (l : list sexp) : bool :=              (* the operands: expression[1:] *)
                match l with
                | [] => true
-               | x :: r => (if skip then true else goal_arity_ok x) && go false r
+               | x :: r => (if skip then true else goal_arity_ok objs x) && go false r
                end) true l
         end
     end.
@@ -344,7 +362,7 @@ Section Parser.
       | None => Err EKey
       end
     else
-      if fix_goal_arity cfg && negb (goal_arity_ok e) then Err EValue
+      if fix_goal_arity cfg && negb (goal_arity_ok (pb_objects pb) e) then Err EValue
       else
         do t <- pconstruct (fix_apps cfg) num funcs_keys e;
         Ok (with_goal pb (pb_goal pb) (pb_goal_num pb ++ [t])).
